@@ -904,7 +904,7 @@ SPECS["C04"] = dict(
         technique='Coq proof (composition C06 + C02 + C13) + correspondence incl. replayed-oracle tokenizers + checker on implementation output',
     ),
     relevant=lambda comp, kv: {"no_panic", "tokens_lossless", "reconstruct_old", "reconstruct_new",
-                               "change_index_shape", "perop_same"},
+                               "change_index_shape", "perop_same", "ctor_same"},
     run=run_C04,
     generators="textdiff component: random line texts (small line alphabets, LF/CRLF/CR, missing final newline) and "
                "their edits, random symbol strings incl. multi-byte, and in byte mode invalid UTF-8; 5 tokenizers x 3 "
@@ -1016,7 +1016,7 @@ SPECS["C14"] = dict(
         note='Trusted: Coq 8.16.1 kernel; extraction with ExtrOcamlBasic only; OCaml driver and Rust harness glue; the tie of the hand-written model to /repo is the correspondence check (differential testing on the generated inputs, rebuilt from the working tree every run), not a proof about the Rust source. usize wrap-around is not modelled.',
         technique='Coq proof (first-seen numbering invariant; oracle equality) + correspondence on both sides of the 100-token threshold',
     ),
-    relevant=lambda comp, kv: {"no_panic", "ops_eq_tokens_diff", "alg_reported", "newline_flag", "identify_iff_eq",
+    relevant=lambda comp, kv: {"no_panic", "ops_eq_tokens_diff", "alg_reported", "newline_flag", "ctor_same", "identify_iff_eq",
                                "identify_ranges", "ops_loose"},
     run=run_C14,
     generators="textdiff component with token counts (99,99) (100,100) (100,101) (101,100) (101,3) (3,101) (250,240) "
@@ -1123,7 +1123,7 @@ SPECS["C16"] = dict(
         note='Trusted: Coq 8.16.1 kernel; extraction with ExtrOcamlBasic only; OCaml driver and Rust harness glue; the tie of the hand-written model to /repo is the correspondence check (differential testing on the generated inputs, rebuilt from the working tree every run), not a proof about the Rust source. usize wrap-around is not modelled.',
         technique='Coq proof parametric in replayed oracles + correspondence + checker on implementation output',
     ),
-    relevant=lambda comp, kv: {"no_panic", "inline_same_shape", "inline_concat_line", "inline_emph_only_replace",
+    relevant=lambda comp, kv: {"no_panic", "inline_default_entry", "inline_same_shape", "inline_concat_line", "inline_emph_only_replace",
                                "inline_no_newline_emph", "inline_missing_newline"},
     run=run_C16,
     generators="inline component: random line texts and their edits (one word changed, lines replaced, mixed "
